@@ -70,11 +70,14 @@ def get_level(snr,
     else:
         raise ValueError("Invalid option given for 'length_mode'.")
             
+    # Python integer: num_branches * fftlength would wrap around in a numpy fixed-width type
+    fftlength = int(fftlength)
+    
     # Get amplitude required for cosine signal to get required SNR
     int_factor = 1 # level has no dependence on integration factor
     # Whole fine spectra in the recorded blocks, in integer arithmetic: the float quotient
     # time_per_block * num_blocks / dt can land just below an integer and lose a spectrum
-    tchans = int(num_blocks) * int(raw_voltage_backend.samples_per_block) // (int(fftlength) * int_factor)
+    tchans = int(num_blocks) * int(raw_voltage_backend.samples_per_block) // (fftlength * int_factor)
     
     chi_df = 2 * raw_voltage_backend.num_pols * int_factor
     # main_mean = (raw_voltage_backend.requantizer.target_sigma)**2 * chi_df * raw_voltage_backend.filterbank.max_mean_ratio
